@@ -607,11 +607,12 @@ pub fn run(cfg: &Cfg) -> Report {
             }
         }
     }
-    // long histories of lost clients (one shard each for the two execution modes)
+    // long histories of lost clients: wake-driven with enough clients of every kind to exhaust any
+    // plausible per-server table (> 4096 each), and a shorter one under the poll-until-quiet executor
     if !miri && !small && cfg.shard < 2 {
         let mut rng = cfg.rng(92);
-        let n = if cfg.thorough { 70_000 } else { 9_000 };
-        let scn = churn(&mut rng, n, cfg.shard == 1);
+        let n = if cfg.shard == 0 { if cfg.thorough { 120_000 } else { 26_000 } } else { 6_000 };
+        let scn = churn(&mut rng, n, cfg.shard == 0);
         check_churn(&scn, n, &mut rep);
     }
     rep
